@@ -445,7 +445,8 @@ Proof.
           [80%Z; 79%Z; 76%Z; 89%Z; 83%Z; 69%Z; 69%Z; 68%Z; 32%Z; 109%Z; 97%Z; 115%Z; 107%Z; 0%Z; 255%Z; 255%Z] 16 10000 32;
         CApi.CWipe "poly" (zN sizeof_poly); CApi.CWipe "mask" 32; CApi.CWipe "pass_norm" 544].
   exists (mkdata (d_birthday d1) (d_features d1) sec pe).
-  split; [reflexivity|]. split; [|repeat split].
+  cbn [d_birthday d_features d_secret d_checksum].
+  split; [unfold d1 at 1 2 3; cbn [d_birthday d_features d_secret]; reflexivity|]. split; [|repeat split].
   unfold evs_of. cbn [flat_map ev_of app cobj]. fold nf. rewrite bytes_of_zs, EN.
   rewrite <- (Z_N_nat (zN n)), !N2Z.id, EB, map_toN_zs. reflexivity.
 Qed.
